@@ -63,7 +63,10 @@ MkMethod(c, mc, k) ==
      sig |-> IF "sig" \in DOMAIN mc THEN mc.sig ELSE AutoSig(c, mc),
      anns |-> IF "anns" \in DOMAIN mc THEN mc.anns ELSE AutoAnns(c, mc),
      ret |-> mc.ret, errors |-> mc.errors, response |-> mc.response, desc |-> mc.desc,
-     ptag |-> IF "ptag" \in DOMAIN mc THEN mc.ptag ELSE ""]
+     ptag |-> IF "ptag" \in DOMAIN mc THEN mc.ptag ELSE "",
+     \* rendering only: adjacent parameters of one type are declared as a Go identifier list - func (a, b, c string, d int) -
+     \* (the documented / bound order is the signature order whichever way the author groups the names)
+     grouped |-> ("grouped" \in DOMAIN mc /\ mc.grouped)]
 
 MethodsOfLast == IF proj.ctrls = <<>> THEN 0
                  ELSE Cardinality({i \in DOMAIN proj.methods : proj.methods[i].ctrl = proj.ctrls[Len(proj.ctrls)].id})
